@@ -2013,6 +2013,10 @@ terrorNotEnoughExports(Stab stab, AbSyn ab, TPoss tposs, Bool onlyWarning)
 		terrorPutConditionallyDefinedExports(obuf, stab, mods, ab, isymes);
 	}
 done:
+	/* Nothing was written (no details wanted, or no export could be
+	 * named): the buffer is not even terminated, so say the plain thing. */
+	if (bufPosition(obuf) == 0)
+		bufPuts(obuf, comsgString(ALDOR_D_TinMissingExports));
 	if (onlyWarning)
 		comsgWarning(ab, ALDOR_E_ExplicitMsg, bufChars(obuf));
 	else
